@@ -19,6 +19,8 @@ KEYS = {
     "C-Left": ESC + b"[1;5D", "C-Right": ESC + b"[1;5C", "M-Left": ESC + b"[1;3D", "M-Right": ESC + b"[1;3C",
     "S-Up": ESC + b"[1;2A", "Up2": ESC + b"OA", "Down2": ESC + b"OB", "Home2": ESC + b"[1~", "End2": ESC + b"[4~",
     "M-Backspace": ESC + b"\x7f",
+    # sequences no key is assigned to (an unsupported function key, a focus report, an SS3 letter): read whole, then ignored
+    "Unk1": ESC + b"[9~", "Unk2": ESC + b"Oz", "Unk3": ESC + b"[I", "Unk4": ESC + b"[29~",
 }
 
 
@@ -325,7 +327,7 @@ def gen_emacs(rng, n, history=False, extra=()):
         elif extra:
             ks.append(rng.choice(extra))
         else:
-            ks.append(rng.choice(["C-l", "F5", "Insert", "PageUp", "S-Up", "C-g"]))
+            ks.append(rng.choice(["C-l", "F5", "Insert", "PageUp", "S-Up", "C-g", "Unk1", "Unk2", "Unk3", "Unk4"]))
     return ks
 
 
@@ -840,7 +842,8 @@ def c06_cases(tier, seed):
                     keys.append(rng.choice(["C-d", "Backspace", "C-h", "Delete"]))
                 elif r < 0.68:
                     # commands the main loop handles itself (quoted insert, a search that is aborted or finds nothing)
-                    keys += rng.choice([["C-v", "x"], ["C-q", "é"], ["C-r", "C-g"], ["C-r", "q", "C-g"], ["C-r", "o", "C-g"], ["C-s", "C-g"]])
+                    keys += rng.choice([["C-v", "x"], ["C-q", "é"], ["C-r", "C-g"], ["C-r", "q", "C-g"], ["C-r", "o", "C-g"], ["C-s", "C-g"],
+                                        ["Unk1"], ["Unk2"], ["Unk3"], ["Unk4"], ["Unk1"], ["Unk3"]])
                 elif r < 0.75:
                     keys.append(rng.choice(EMACS_MOVES))
                 elif r < 0.9:
